@@ -94,3 +94,10 @@ package css_parser
 // must be computed in that order: scaling by the pre-rounded constant 255/100 = 2.55 makes 50% come out as
 // 127.49999999999999 -> 127 (#7f) where the number form 127.5 gives 128 (#80).
 //@ flow percent-channel-scaling C12: func=parseColorByte ; in=css_parser ; site=call Round ; scenario=percent_channel_rounding ; argpath=0:*#0*255/100 OR *#0*scale
+
+// C12 (nesting expansion): a conditional group rule (@media, @supports, @layer, ... inside a style rule) does not change
+// what `&` stands for: the context handed to its children carries the parent selector lists unchanged, each list copied
+// from the list of the same name (the "with pseudo" list is the one that keeps :is()-less pseudo-element selectors
+// apart; swapping it for the other list silently merges or drops them).
+//@ flow nested-group-rules-keep-the-parent-selectors.with C12: func=(*parser).lowerNestingInRuleWithContext ; in=css_parser ; site=store lowerNestingContext.parentSelectorsWithPseudo ; valuepath=context.parentSelectorsWithPseudo
+//@ flow nested-group-rules-keep-the-parent-selectors.no C12: func=(*parser).lowerNestingInRuleWithContext ; in=css_parser ; site=store lowerNestingContext.parentSelectorsNoPseudo ; valuepath=context.parentSelectorsNoPseudo
